@@ -71,7 +71,9 @@ Definition prop_resume (input obs : val) : val :=
     let rdiff := negb (roots_same roots roots2) in
     let pdiff := negb (w_v1 o) && negb (w_v1 o2) && negb (w_dpad o =? w_dpad o2) in
     if vtag (vnth 0 obs) "openerr" then VT "ok"
-    else if negb (vdiff || rdiff || pdiff) then VT "ok"       (* nothing the property speaks about *)
+    else if negb (vdiff || rdiff || pdiff) then
+      (* the same roots (order ignored), version and padding: the reopen must go through *)
+      (if vtag (vnth 0 obs) "rejected" then fail "same-roots-rejected" "other" else VT "ok")
     else if vtag (vnth 0 obs) "accepted" then
       (* class of the accepted mismatch, computed from the case *)
       match open_new (v_kind kn) o (is_nil_tag (vnth 3 input)) roots [] with
